@@ -450,6 +450,9 @@ func verifC26CheckOne(ops []verifkit.Step, w *verifC26Want, cz *verifC26Conc) (s
 		}
 		for i := 0; i < w.radix[g][0]; i++ {
 			for si := 0; si < w.radix[g][1]; si++ {
+				if cz.raw[g] && si != 0 {
+					continue // SqlFilter!RowOK: no row has a string in the column of a raw tag
+				}
 				iv := cz.ints[g][i]
 				sv := cz.strs[verifC26StrIDs[si]]
 				if canonOnly {
